@@ -600,3 +600,20 @@ def success_cases(ctx, f):
             if a is not None:
                 out.append((path, atoms + [a], r[2][1]))
     return out
+
+
+def back_only(f, x, b, sblk):
+    """x reaches b only by going around the loop through sblk again (so the test is re-evaluated after the reassignment)"""
+    seen = set()
+    st = [x]
+    while st:
+        y = st.pop()
+        for z in f.succs(y):
+            if z == sblk or z in seen:
+                continue
+            if z == b:
+                return False
+            seen.add(z); st.append(z)
+    return True
+
+
